@@ -263,6 +263,28 @@ class HubRun:
             if op is not None and op["kind"] != "hello":
                 self.history.append({"t": "ret", "id": op["id"], "sid": s.sid, "reply": self._abstract_reply(v, body)})
 
+    def _flush_truncated(self, s):
+        """The server has exited by itself and its reply stream ends inside a reply (typically a Content header that announces
+        more bytes than follow): the request WAS answered - with fewer bytes than announced - and the history must say so."""
+        if not s.outbuf or s.exit is None or s.exit < 0:
+            return
+        v = None
+        try:
+            n = struct.unpack(">I", s.outbuf[:4])[0]
+            if len(s.outbuf) >= 4 + n:
+                v, _ = cb.dec(s.outbuf[4:4 + n])
+        except Exception:
+            v = None
+        if isinstance(v, dict) and "Content" in v:
+            reply = self._abstract_reply(v, s.outbuf[4 + n:])
+        else:
+            reply = {"r": "other", "raw": "the reply stream ends inside a frame"}
+        s.outbuf = b""
+        ops = self.pending_ops.get(s.sid, [])
+        op = ops.pop(0) if ops else None
+        if op is not None and op["kind"] != "hello":
+            self.history.append({"t": "ret", "id": op["id"], "sid": s.sid, "reply": reply})
+
     def _class_of_hash(self, h):
         if h is None:
             return "none"
@@ -471,5 +493,6 @@ class HubRun:
                 s.proc.wait()
             s.exit = s.proc.returncode
             self._drain_stdout(s)
+            self._flush_truncated(s)
         self.lsock.close()
         return self.snapshot()
